@@ -147,6 +147,41 @@ def worker(job):
                     if isinstance(e, (KeyboardInterrupt, SystemExit)):
                         raise
                     res["harness_error"] = "".join(traceback.format_exception(type(e), e, e.__traceback__))[-3000:]
+        fuzz_runs = getattr(mod, "FUZZ_RUNS", {}).get(tier, 0)
+        if fuzz_runs and not res["failures"]:
+            # coverage-guided sub-engine (atheris/libFuzzer over the same strategy and oracle), one campaign per shard
+            import subprocess
+            import tempfile
+
+            try:
+                import atheris  # noqa: F401
+
+                have = True
+            except Exception:
+                have = False
+            if not have:
+                res["extra"]["atheris"] = "not installed (tools/setup.sh installs it from the offline wheelhouse): sub-engine skipped"
+            else:
+                tmp = tempfile.mkdtemp(prefix=f"fuzz-{pid}-")
+                outp = os.path.join(tmp, "out.json")
+                try:
+                    subprocess.run([sys.executable, "-m", "vcheck.fuzz", pid, str(fuzz_runs), str(seed * 1000 + shard + 1), outp],
+                                   capture_output=True, timeout=getattr(mod, "FUZZ_TIMEOUT", 1500))
+                    with open(outp) as fh:
+                        fz = json.load(fh)
+                    res["evaluations"] += fz["executions"]
+                    res["nontrivial_hashes"].update(fz["nontrivial_hashes"])
+                    res["extra"]["atheris_executions"] = fz["executions"]
+                    res["extra"]["atheris_libfuzzer_runs"] = fuzz_runs
+                    if fz.get("failure"):
+                        f = fz["failure"]
+                        res["failures"][f["signature"]] = {"size": len(canon(f["case"])), "case": f["case"], "detail": "[atheris] " + f["detail"], "signature": f["signature"]}
+                except Exception as e:
+                    res["extra"]["atheris"] = f"campaign failed to run: {type(e).__name__}: {e}"
+                finally:
+                    import shutil
+
+                    shutil.rmtree(tmp, ignore_errors=True)
         if hasattr(mod, "extra"):
             for case, out in mod.extra(tier, seed, shard, nshards):
                 if case is None:
